@@ -7,6 +7,7 @@ REPO = os.environ.get('VERIF_REPO', '/repo')
 CACHE = os.path.join(ROOT, '.cache')
 EVIDENCE = os.path.join(ROOT, 'evidence')
 REPLAYS = os.path.join(ROOT, 'replays')
+os.makedirs(CACHE, exist_ok=True)
 NCPU = int(os.environ.get('VERIF_JOBS', str(min(16, os.cpu_count() or 4))))
 
 
